@@ -9,13 +9,14 @@ Local Open Scope Z_scope.
    the effect of a report-finality step on an ongoing lock tracker whose reporter is the RECORDED
    witness of the slot it names and had not voted; that vote takes the yes-count from below
    floor(2n/3)+1 to at least it; the amount is the value the oracle parses from the recorded
-   external transaction; both the beneficiary and the supply counter get exactly that amount and
+   external transaction; the beneficiary is the tracker's owner whatever the report's Locker field
+   says; both the beneficiary and the supply counter get exactly that amount and
    the tracker becomes Released in the same step.  From ANY state (no reachability needed). *)
 Theorem C15_mint_gated : forall E s o s' r n a z,
   step E s o = (s', r) -> log s' = Minted n a z :: log s ->
-  exists v idx k t,
-    o = Report n a v idx true /\ r = Ok /\
-    ongoing s !! n = Some t /\ t_type t = T_LOCK /\
+  exists l v idx k t,
+    o = Report n l v idx true /\ r = Ok /\
+    ongoing s !! n = Some t /\ t_type t = T_LOCK /\ a = t_owner t /\
     idx = Z.of_nat k /\ t_wit t !! k = Some v /\ voted t v = false /\
     let t' := set_votes t (<[k := 1]> (t_votes t)) in
     yes_votes t < threshold t /\ threshold t <= yes_votes t' /\
@@ -85,30 +86,44 @@ Theorem C15_unique_name : forall E ops b, stores_disjoint (run E (init b) ops).
 Proof. exact unique_name. Qed.
 Print Assumptions C15_unique_name.
 
-(* (6) "to the account that submitted the lock".  The full statement is false of the faithful
-   model (and of the code: known finding C15.mint_to_report_locker): the beneficiary is the Locker
-   field of the report that crosses the threshold.  Outside the trigger it holds. *)
-Theorem C15_beneficiary_partial : forall E s o s' r n a z,
-  step E s o = (s', r) -> log s' = Minted n a z :: log s -> trig_locker s o = false ->
-  exists t, ongoing s !! n = Some t /\ a = t_owner t.
-Proof. exact beneficiary_partial. Qed.
-Print Assumptions C15_beneficiary_partial.
+(* (6) "to the account that submitted the lock" — FULL statement (since /repo b01fdf0; it was refuted
+   before: former finding C15.mint_to_report_locker).  For every state and every operation, lying
+   Locker field or not: a mint credits the owner recorded in the ongoing lock tracker, by exactly
+   the minted amount; runLock records the signer of the lock as that owner, under a name that was
+   in neither the ongoing nor the passed store; and no step ever changes the recorded type, name,
+   external transaction, witnesses or owner of a tracker that stays in the ongoing store. *)
+Theorem C15_mint_to_submitter : forall E s o s' r n a z,
+  step E s o = (s', r) -> log s' = Minted n a z :: log s ->
+  exists t, ongoing s !! n = Some t /\ t_type t = T_LOCK /\ a = t_owner t /\
+            balof (bal s') a = balof (bal s) a + z + (if decide (a = e_supply E) then z else 0).
+Proof. exact mint_to_submitter. Qed.
+Print Assumptions C15_mint_to_submitter.
+
+Theorem C15_lock_records_sender : forall E s a x s',
+  do_lock E s a x = (s', Ok) ->
+  ongoing s' !! x_name (e_tx E x) = Some (new_tracker T_LOCK a x (x_name (e_tx E x)) (e_wits E)) /\
+  ongoing s !! x_name (e_tx E x) = None /\ passed s !! x_name (e_tx E x) = None.
+Proof. exact lock_records_sender. Qed.
+
+Theorem C15_record_stable : forall E s o s' r n t t',
+  step E s o = (s', r) -> ongoing s !! n = Some t -> ongoing s' !! n = Some t' -> same_record t t'.
+Proof. exact record_stable. Qed.
+Print Assumptions C15_record_stable.
 
 Definition E0 : env :=
   {| e_wits := [20; 21; 22; 23]%N; e_cap := 1000; e_supply := 99%N;
      e_tx := fun _ => {| x_name := 1%N; x_lock := Some 100; x_redeem := Some 30 |} |}.
 Definition two_honest : list op := [Lock 1%N 1%N; Report 1%N 1%N 20%N 0 true; Report 1%N 1%N 21%N 1 true].
 
-(* four recorded witnesses, threshold 3; two honest yes-votes; the third witness names account 2 *)
-Theorem C15_refuted_beneficiary : exists E s o n a z t,
-  (exists ops, s = run E (init ∅) ops) /\ trig_locker s o = true /\
-  log (step E s o).1 = Minted n a z :: log s /\ ongoing s !! n = Some t /\ a <> t_owner t.
-Proof.
-  exists E0, (run E0 (init ∅) two_honest), (Report 1%N 2%N 22%N 2 true), 1%N, 2%N, 100,
-    {| t_type := 1; t_state := 0; t_name := 1%N; t_tx := 1%N; t_wit := [20; 21; 22; 23]%N; t_owner := 1%N;
-       t_votes := [1; 1; 0; 0] |}.
-  split; [by exists two_honest|]. vm_compute. repeat split; try reflexivity. discriminate.
-Qed.
+(* regression example (the witness of the former C15_refuted_beneficiary): four recorded witnesses,
+   threshold 3; two honest yes-votes; the third witness names account 2 as Locker and crosses the
+   threshold: the 100 tokens go to account 1, which submitted the lock; account 2 gets nothing *)
+Example C15_lying_locker_does_not_redirect :
+  let s := run E0 (init ∅) two_honest in
+  let o := Report 1%N 2%N 22%N 2 true in
+  lying_locker s o = true /\ log (step E0 s o).1 = Minted 1%N 1%N 100 :: log s /\
+  balof (bal (step E0 s o).1) 1%N = 100 /\ balof (bal (step E0 s o).1) 2%N = 0.
+Proof. vm_compute. repeat split; reflexivity. Qed.
 
 (* (7) redeem: debit and tracker creation are one successful step, and the name was in no store *)
 Theorem C15_redeem_debits_first : forall E s a x s',
@@ -123,9 +138,42 @@ Theorem C15_redeem_debits_first : forall E s a x s',
 Proof. exact redeem_debits. Qed.
 Print Assumptions C15_redeem_debits_first.
 
+Definition honest : list op := two_honest ++ [Report 1%N 1%N 22%N 2 true; EndBlock {| nl_witness := false; nl_addr := 0%N; nl_bjob := [] |} [1%N]].
+
+(* (7b) ERC-20 locks (runERC20Lock; only its effect on the tracker stores is modelled).  The handler
+   has no existence check.  Outside the trigger (the name is in no store) it keeps the one-name-one-
+   tracker invariant; inside it the statements (5) and C15_record_stable are false of the model and
+   of the code: known finding C15.erc20_lock_no_existence_check (on the real application the same
+   external ERC-20 transfer is minted twice, and a pending lock is taken over by a resubmission
+   from another account; reproduced on every run by `vh c15 -erc20`). *)
+Theorem C15_erc_lock_partial : forall E okf s a x s' r,
+  trig_erc_relock E s x = false -> stores_disjoint s -> do_lock_erc E okf s a x = (s', r) -> stores_disjoint s'.
+Proof. exact erc_lock_partial. Qed.
+Print Assumptions C15_erc_lock_partial.
+
+(* a name that already passed (and was minted) gets a second, fresh tracker *)
+Theorem C15_refuted_erc_relock_passed : exists E okf s a x,
+  (exists ops, s = run E (init ∅) ops) /\ trig_erc_relock E s x = true /\
+  minted_names (log s) = [x_name (e_tx E x)] /\ ~ stores_disjoint (do_lock_erc E okf s a x).1.
+Proof.
+  exists E0, (fun _ => true), (run E0 (init ∅) honest), 1%N, 1%N.
+  split; [by exists honest|]. split; [by vm_compute|]. split; [by vm_compute|].
+  intros [D1 _]. specialize (D1 1%N). vm_compute in D1. destruct D1 as [D1 _]; [by eexists|discriminate].
+Qed.
+
+(* a pending tracker with two votes is replaced: votes gone, another owner *)
+Theorem C15_refuted_erc_overwrite : exists E okf s a x n t t',
+  (exists ops, s = run E (init ∅) ops) /\ trig_erc_relock E s x = true /\
+  ongoing s !! n = Some t /\ ongoing (do_lock_erc E okf s a x).1 !! n = Some t' /\
+  yes_votes t = 2 /\ yes_votes t' = 0 /\ t_owner t = 1%N /\ t_owner t' = 2%N.
+Proof.
+  exists E0, (fun _ => true), (run E0 (init ∅) two_honest), 2%N, 1%N, 1%N.
+  eexists _, _. split; [by exists two_honest|]. vm_compute. repeat split; reflexivity.
+Qed.
+
 (* (8) supply counter = wrapped tokens in circulation ([tot] counts the supply address too, hence
    the factor 2).  Forced hypothesis: no step of the history has the supply address as sender,
-   named Locker, tracker owner or transfer end.  Without it the statement is false of the model
+   tracker owner or transfer end.  Without it the statement is false of the model
    and of the code: known finding C15.supply_address_transacts. *)
 Theorem C15_supply_partial : forall E ops s,
   supply_ok E s -> supply_guarded E s ops -> supply_ok E (run E s ops).
@@ -142,7 +190,6 @@ Qed.
 
 (* non-vacuity: an honest history satisfies every hypothesis above, mints exactly once, credits
    the owner and keeps the counter equal to the circulation; a failing redeem is refunded once *)
-Definition honest : list op := two_honest ++ [Report 1%N 1%N 22%N 2 true; EndBlock {| nl_witness := false; nl_addr := 0%N; nl_bjob := [] |} [1%N]].
 Example C15_honest_history :
   let s := run E0 (init ∅) honest in
   supply_guarded E0 (init ∅) honest /\ minted_names (log s) = [1%N] /\ balof (bal s) 1%N = 100 /\
